@@ -1,28 +1,24 @@
 #!/bin/bash
-# usage: seedcheck.sh <Cxx> <a|b> <check ids...>   (confirms a seeded change and runs checks against it)
+# usage: seedcheck.sh <Cxx> <letter> <check ids...>   (confirms a seeded change and runs checks against it)
+# SEEDROOT (default /tmp/seed3) holds the sub-agent's worktree <Cxx>/ with OUT/<letter>_patch.diff and OUT/<letter>_demo.rs
 P=$1; X=$2; shift 2
-W=/tmp/seed/$P
+ROOT=${SEEDROOT:-/tmp/seed3}
+W=$ROOT/$P
 OUT=/verif/seeded/${P}_$X
-mkdir -p $OUT
+# evidence of runs against a changed tree never lands in /verif/evidence
+export VERIF_EVIDENCE_DIR=/tmp/seed_evidence
+mkdir -p $OUT $VERIF_EVIDENCE_DIR
 cp $W/OUT/${X}_patch.diff $OUT/patch.diff
 cp $W/OUT/${X}_demo.rs $OUT/demo.rs
+if [ -z "$SKIP_DEMO" ]; then
 cd $W && git checkout -q -- src && cp OUT/${X}_demo.rs tests/seed_demo_$X.rs
 git apply OUT/${X}_patch.diff || { echo "PATCH DOES NOT APPLY in worktree"; exit 3; }
-cargo test --offline --test seed_demo_$X > $OUT/demo_with_change.log 2>&1; RC1=$?
+timeout 900 cargo test --offline --test seed_demo_$X > $OUT/demo_with_change.log 2>&1; RC1=$?
 git checkout -q -- src
-cargo test --offline --test seed_demo_$X > $OUT/demo_unchanged.log 2>&1; RC2=$?
-echo "demo with change rc=$RC1 (expect !=0), unchanged rc=$RC2 (expect 0)"
-# does the change still break things on the current HEAD of /repo?
-H=/tmp/seed/HEAD
-cd $H && git checkout -q -- . && git checkout -q --detach $(git -C /repo rev-parse HEAD) && cp $OUT/demo.rs tests/seed_demo_$X.rs
-if git apply $OUT/patch.diff; then
-  cargo test --offline --test seed_demo_$X > $OUT/demo_head_with_change.log 2>&1; RC3=$?
-  git checkout -q -- src
-  echo "demo on current HEAD with change rc=$RC3 (expect !=0)"
-else
-  echo "PATCH DOES NOT APPLY to current HEAD"; RC3=-1
-fi
+timeout 900 cargo test --offline --test seed_demo_$X > $OUT/demo_unchanged.log 2>&1; RC2=$?
 rm -f tests/seed_demo_$X.rs
+echo "demo with change rc=$RC1 (expect !=0), unchanged rc=$RC2 (expect 0)"
+else RC1=skipped; RC2=skipped; fi
 cd /verif
 git -C /repo apply $OUT/patch.diff || { echo "PATCH DOES NOT APPLY to /repo HEAD"; git -C /repo checkout -- .; exit 4; }
 RES=""
@@ -33,4 +29,4 @@ for C in "$@"; do
   RES="$RES $C:$RC"
 done
 git -C /repo checkout -- .
-echo "$P $X demo_with=$RC1 demo_without=$RC2 demo_head_with=$RC3 checks:$RES" >> /verif/seeded/RESULTS.txt
+echo "$P $X demo_with=$RC1 demo_without=$RC2 checks:$RES" >> /verif/seeded/RESULTS.txt
